@@ -428,6 +428,9 @@ type SetupResult struct {
 	Link peering.Link
 	Err  error
 	Done bool
+	// BeforeCut: the setup call returned while the connection was still open (it ended by its own decision, not
+	// because the harness cut a connection on which nothing moved any more)
+	BeforeCut bool
 }
 
 // Handshake runs the real link setup on both ends of the wire concurrently
@@ -437,18 +440,19 @@ func Handshake(w *Wire, a, b *Router, watchdog time.Duration) (ra, rb SetupResul
 	var wg sync.WaitGroup
 	wg.Add(2)
 	var mu sync.Mutex
+	var cut atomic.Bool
 	go func() {
 		defer wg.Done()
 		l, err := a.Inst.PeeringV.VerifSetupLink(w.A, URL, true)
 		mu.Lock()
-		ra = SetupResult{Link: l, Err: err, Done: true}
+		ra = SetupResult{Link: l, Err: err, Done: true, BeforeCut: !cut.Load()}
 		mu.Unlock()
 	}()
 	go func() {
 		defer wg.Done()
 		l, err := b.Inst.PeeringV.VerifSetupLink(w.B, URL, false)
 		mu.Lock()
-		rb = SetupResult{Link: l, Err: err, Done: true}
+		rb = SetupResult{Link: l, Err: err, Done: true, BeforeCut: !cut.Load()}
 		mu.Unlock()
 	}()
 	done := make(chan struct{})
@@ -476,11 +480,13 @@ func Handshake(w *Wire, a, b *Router, watchdog time.Duration) (ra, rb SetupResul
 			aDone, bDone = ra.Done, rb.Done
 			mu.Unlock()
 			if (aDone || w.pa.idle()) && (bDone || w.pb.idle()) && !(aDone && bDone) && !w.AnyParked() {
+				cut.Store(true)
 				w.A.Cut()
 				w.B.Cut()
 			}
 		}
 		if time.Now().After(deadline) {
+			cut.Store(true)
 			w.A.Cut()
 			w.B.Cut()
 			select {
